@@ -2,6 +2,7 @@
    Crash LTS: any number of senders/messages, LCrash at ANY point of ANY schedule. *)
 From Coq Require Import List Lia.
 From IPC Require Import Crash CrashProofs.
+From IPC Require RSet CrashLink.
 Import ListNotations.
 
 (* every delivered payload is the whole data of a message that was not abandoned, in order; messages of
@@ -47,3 +48,20 @@ Example C12_ex :
   option_map (@delivered nat) (run init [LStart p1; LFollow 0; LCrash 0; LStart p2; LRFirst; LRFollow; LRSkip; LRFirst])
     = Some [[9]].
 Proof. vm_compute. reflexivity. Qed.
+
+(* ---- link with the receiver-set and timed-receive models: their parameter `tornp` ("the remains of a crashed sender's send") is
+   this model's ghost `is_aborted`: what is delivered once things have settled is, id for id, what RSet reports for a member whose
+   queue saw the linearised messages (C06_events_fifo: good tornp sent), and a receive that skips the torn head skips aborted
+   messages only ---- *)
+Theorem C12_delivered_are_the_untorn : forall (A : Type) (ls : list (@label A)) (s : @sys A),
+  Forall wf_label ls -> run init ls = Some s -> quiescent s ->
+  delivered s = map snd (filter (fun d => negb (is_aborted s (fst d))) (lin s)) /\
+  map fst (filter (fun d => negb (is_aborted s (fst d))) (lin s)) = RSet.good (is_aborted s) (map fst (lin s)).
+Proof.
+  intros A ls s W R Q. split; [exact (crash_quiescent_complete ls s W R Q)|apply CrashLink.survivors_ids].
+Qed.
+Print Assumptions C12_delivered_are_the_untorn.
+Theorem C12_skipping_drops_aborted_only : forall (A : Type) (s : @sys A) (ids : list nat),
+  RSet.good (is_aborted s) (RSet.strip (is_aborted s) ids) = RSet.good (is_aborted s) ids.
+Proof. intros A. exact CrashLink.strip_aborted. Qed.
+Print Assumptions C12_skipping_drops_aborted_only.
